@@ -47,6 +47,9 @@ def concretise(script, conf, rnd, big=(150000, 400000)):
         elif op == "tgt_close":
             steps.append(("tgt_close", st["how"]))
             closes.append("tgt")
+        elif op == "cut":
+            steps.append(("cut", st["how"]))
+            closes += ["app", "tgt"]     # after a link failure both outer sides are watched for their end
     if reach != "ok":
         steps.append(("wait_end", "app"))
     else:
@@ -94,7 +97,7 @@ def random_script(rnd, max_steps=8, big=(100000, 600000), pauses=True):
 HOSTS = [("127.0.0.1", None), ("127.0.0.2", None), ("127.0.0.1", "localhost"), ("127.0.0.3", None)]
 
 
-async def run_batch(dep, flows_spec, seed, log=None, fid0=1, settle_cap=9.0):
+async def run_batch(dep, flows_spec, seed, log=None, fid0=1, settle_cap=9.0, mbox=None, end_cap=6.0):
     """flows_spec: list of (steps, reach, kind, chunk). Runs them concurrently on deployment `dep`.
     Returns the NDJSON-ready event list of the batch: Idle, (Reset flow)*, Settled, Panic."""
     log = log or e2e.Log()
@@ -104,10 +107,10 @@ async def run_batch(dep, flows_spec, seed, log=None, fid0=1, settle_cap=9.0):
         ip, name = HOSTS[i % len(HOSTS)]
         if reach == "unresolvable":
             name = "no-such-host-%d.invalid" % i
-        fl = e2e.TcpFlow(fid0 + i, kind, ip, steps, seed, log, chunk=chunk, hostname=name, reach=reach)
+        fl = e2e.TcpFlow(fid0 + i, kind, ip, steps, seed, log, chunk=chunk, hostname=name, reach=reach, mbox=mbox)
         await fl.listen()
         flows.append(fl)
-    res = await asyncio.gather(*[f.run(dep.client_port) for f in flows], return_exceptions=True)
+    res = await asyncio.gather(*[f.run(dep.client_port, end_cap=end_cap) for f in flows], return_exceptions=True)
     for r in res:
         if isinstance(r, BaseException):
             raise vlib.ToolError("harness flow failed: %r" % (r,))
